@@ -542,4 +542,135 @@ theorem handleNonTag_lexer_other (cfg : Cfg) (I : St → Prop)
         rw [hto] at this
         exact this
 
+/-! ## the lifting -/
+
+theorem J2_evInvV (cfg : Cfg) : EvInvV cfg (J2 cfg) (fun _ => False) (fun _ => False) ValidEv where
+  fault := (J2_evInv cfg).fault
+  other := (J2_evInv cfg).other
+  end_ := (J2_evInv cfg).end_
+  start := fun s ln ns info nm attrs ns' sc raw src base h hv => by
+    obtain ⟨c1, c2⟩ := (J2_evInv cfg).start s ln ns info nm attrs ns' sc raw src base h
+    refine ⟨c1, fun e he => ?_⟩
+    obtain ⟨n1, n2⟩ := start_event_valid cfg s ((J2_evInv cfg).fault s h) ln ns info nm attrs ns' sc raw src base hv e he
+    rcases c2 e he with hh | (hh | hh) | hh
+    · exact Or.inl hh
+    · exact absurd hh n1
+    · exact absurd hh n2
+    · exact Or.inr (Or.inr hh)
+
+theorem checkedSlice_len {inp raw : Bytes} {r : Range} (h : checkedSlice inp r = some raw) :
+    raw.length = r.end - r.start := by
+  unfold checkedSlice at h
+  split at h
+  · rename_i hc
+    simp only [Option.some.injEq] at h
+    subst h
+    exact Chunk.slice_length inp hc.2
+  · cases h
+
+/-- **a lexeme with `TagArgsOK` gives rise to valid start-tag events only** -/
+theorem lexV_of_argsOK {inp : Bytes} {lx : TagLexeme} (hv : TagArgsOK inp lx) : LexV ValidEv inp lx := by
+  intro name h ns as sc ho
+  obtain ⟨⟨hraw, htv⟩, hro⟩ := hv
+  rw [ho] at htv
+  unfold AttrsRawOK at hro
+  rw [ho] at hro
+  dsimp only at hro
+  have hin : AttrsInInput inp as := fun a ha => htv.2 a ha
+  refine ⟨⟨hin, ⟨0, 0⟩, rfl, rfl, fun a ha => by cases ha⟩, fun n attrs raw ha hr => ⟨hin, lx.raw, rfl, checkedSlice_len hr, ?_⟩⟩
+  obtain ⟨l, hl, hm⟩ := attrsOf_some inp as hin
+  rw [ha] at hl
+  simp only [Option.some.injEq] at hl
+  subst hl
+  rw [hm]
+  exact fun a ha => hro a ha
+
+/-- a panic-class error returned by a callback of the real controller is neither a handler error nor one of the
+dispatcher's own errors -/
+theorem no_gp {cfg : Cfg} {e : Err} (hG : Chunk.R.GP e) (hc : Chunk.R.CbErr (fullCtl cfg) (Chunk.R.DO cfg) e)
+    (h : e = .handler ∨ DispOwn e) : False := by
+  rcases h with h | h
+  · subst h
+    rcases hG with ⟨m, hm, _⟩ | ⟨s, hs⟩
+    · cases hm
+    · cases hs
+  · exact Chunk.R.cbErr_not_own cfg e hc h
+
+/-- **On valid lexemes the dispatcher over the real controller IS the dispatcher over the cleaned controller**
+(lexer mode, from a `KD2` state), unless a callback returns a handler error — which both report. -/
+theorem fullCtl_lexEV (cfg : Cfg) (hlex : LexCfg cfg) :
+    LexE.CtlLexEV (genWorld cfg) (Chunk.R.cleanCtl (fullCtl cfg)) (KD2 cfg) (fun _ => False) where
+  ops := fun inp => by
+    have hsim := Chunk.R.fullCtl_sim_prov cfg
+    constructor
+    · intro lx d hd hv
+      have hpost := handleTag_lexer_genV cfg (J2 cfg) _ _ ValidEv (J2_evInvV cfg) d hd.1 hd.2 inp lx (lexV_of_argsOK hv)
+      rcases Chunk.R.handleTag_step hsim inp lx d (kd_DO hd) with ⟨he, _⟩ | ⟨e, ⟨hG, hc⟩, he⟩
+      · refine Or.inl ⟨he, fun a ha => ?_⟩
+        obtain ⟨hi', hJ'⟩ := hpost.1 a ha
+        refine ⟨⟨hi', hJ'⟩, ?_⟩
+        exact LexE.handleTag_dir (fullCtl_stickySync cfg) d lx hd.1.1 hd.1.2 a ha (J_sticky cfg hlex _ hJ'.1)
+      · exfalso
+        rcases hpost.2 e he with h | h | h | h
+        · exact no_gp hG hc (Or.inl h)
+        · exact h
+        · exact h
+        · exact no_gp hG hc (Or.inr h)
+    · intro lx d hd _
+      have hpost := handleNonTag_lexer_other cfg (J2 cfg) (J2_evInv cfg).other d hd.1 hd.2 inp lx
+      rcases Chunk.R.handleNonTag_step hsim inp lx d (kd_DO hd) with ⟨he, _⟩ | ⟨e, ⟨hG, hc⟩, he⟩
+      · exact Or.inl ⟨he, fun ha => hpost.1 () ha⟩
+      · exact (no_gp hG hc (hpost.2 e he)).elim
+  bail := rfl
+  flush := (fullCtl_lexE cfg hlex).flush
+  handleEnd := fun d hd => by
+    have hsim := Chunk.R.fullCtl_sim_prov cfg
+    rcases hsim.handleEnd d.ctl (kd_DO hd) with ⟨he, _⟩ | ⟨e, ⟨hG, _⟩, he⟩
+    · exact Or.inl he
+    · have := Full_handleEnd_lexer cfg d.ctl hd.2.1 e he
+      subst this
+      rcases hG with ⟨m, hm, _⟩ | ⟨s, hs⟩
+      · cases hm
+      · cases hs
+  initial := fun _ => rfl
+
+/-- **Full_no_panic_lexer.** Lexer-mode configurations (a document-level text / comment / doctype handler is
+registered), every settings record, input and chunking: every call of the whole rewriter model with the REAL
+controller returns ok, a handler / memory / ambiguity error, or the documented panic of a call after an error.
+No panic- or internal-class error, at any site: the run IS the run of the cleaned controller
+(`Full_clean_no_panic`, C15) until a callback returns a handler error — on the lexemes the parser hands over
+(`C15_parse_args_valid`) the two glue sites `rAttr` / `rMatcher` cannot fail. No hypothesis is left. -/
+theorem Full_no_panic_lexer : Full_no_panic_lexer_statement := by
+  intro cfg settings chunks hlex x hx
+  have hlex' : LexCfg cfg := hlex
+  have hL := fullCtl_lexEV cfg hlex'
+  have ht : ArgsTable (genWorld cfg).tbl (computeCert Gen.Syntax.table) (computeRaw Gen.Syntax.table) := C15.C15_argsTable_gen
+  have hst : ((genWorld cfg).ctl.initialFlags (FullSt.init cfg)).Sticky = true := by
+    show (St.init cfg).flags.Sticky = true
+    rw [flags_sticky]
+    exact J_sticky cfg hlex' _ (J_init cfg)
+  obtain ⟨hnew, hr⟩ := LexE.new_lexEA (Dk := DkFull cfg) hL ht (FullSt.init cfg) settings hst (KD2_new cfg settings.encoding)
+    (Chunk.R.init_DO cfg)
+  rcases LexE.run_lexEA hL ht s0_T2 s0_ne (fullCtl_argsCtl cfg) chunks _ hr x hx with k | k | ⟨e', ⟨e, hG, _⟩, _⟩
+  · rw [hnew] at k
+    exact Full_clean_no_panic cfg settings chunks x k
+  · rw [k]; trivial
+  · exact hG.elim
+
+/-- **Full_rAttr.** In lexer-mode runs no call fails at `rAttr`. -/
+theorem Full_rAttr : Full_rAttr_statement := by
+  intro cfg settings chunks hlex hx
+  exact Full_no_panic_lexer cfg settings chunks hlex _ hx
+
+/-- **Full_rMatcher.** … and none at `rMatcher`. -/
+theorem Full_rMatcher : Full_rMatcher_statement := by
+  intro cfg settings chunks hlex hx
+  exact Full_no_panic_lexer cfg settings chunks hlex _ hx
+
+/-! ### non-vacuity: the lexer-mode configuration with an attribute selector, mutations and an end-tag handler -/
+
+example : ∀ x ∈ (run (genWorld lexAuxCfg) (Rewriter.new (genWorld lexAuxCfg) (FullSt.init lexAuxCfg) {}) sampleChunks).2,
+    Model.CallOK (fun _ => False) x :=
+  Full_no_panic_lexer lexAuxCfg {} sampleChunks ⟨_, List.mem_cons_self, Or.inr (Or.inl rfl)⟩
+
 end LolHtml.Thm.Full
